@@ -150,6 +150,33 @@ func main() {
 		l.Raw("def recvProgs : List (String × List String) := [\n  " + strings.Join(progs, ",\n  ") + "]\n")
 		l.Raw("/-- the deferred cleanup of each session goroutine -/\n")
 		l.Raw("def cleanupProgs : List (String × List String) := [\n  " + strings.Join(defers, ",\n  ") + "]\n")
+
+		// index bookkeeping of the four recvmmsg/sendmmsg relay loops
+		var batches []string
+		for _, it := range []struct{ recv, fn, label string }{
+			{"*UDPNATRelay", "relayServerConnToNatConnSendmmsg", "nat-uplink"},
+			{"*UDPNATRelay", "relayNatConnToServerConnSendmmsg", "nat-downlink"},
+			{"*UDPSessionRelay", "relayServerConnToNatConnSendmmsg", "session-uplink"},
+			{"*UDPSessionRelay", "relayNatConnToServerConnSendmmsg", "session-downlink"},
+		} {
+			fd, err := sp.Func(it.recv, it.fn)
+			if err != nil {
+				return err
+			}
+			kv, err := batchProgram(sp, fd)
+			if err != nil {
+				return fmt.Errorf("%s.%s: %w", it.recv, it.fn, err)
+			}
+			var items []string
+			for _, e := range kv {
+				items = append(items, fmt.Sprintf("(%s, %s)", gen.LeanString(e[0]), gen.LeanString(e[1])))
+			}
+			batches = append(batches, fmt.Sprintf("(%s, [%s])", gen.LeanString(it.label), strings.Join(items, ", ")))
+		}
+		l.Raw("/-- index bookkeeping of each sendmmsg relay loop: the counter of kept messages, the index of the received\n")
+		l.Raw("    message (downlinks), every index expression used to fill a send-side vector in the keep path (in source order,\n")
+		l.Raw("    with the counter increment), the slice handed to WriteMsgs, where the counter is declared, the msgvec→iovec/name links -/\n")
+		l.Raw("def batchProgs : List (String × List (String × String)) := [\n  " + strings.Join(batches, ",\n  ") + "]\n")
 		return nil
 	})
 }
@@ -506,4 +533,216 @@ func cleanupProgram(p *apkg, fl *ast.FuncLit) ([]string, error) {
 		return prog, nil
 	}
 	return nil, fmt.Errorf("session goroutine has no deferred cleanup")
+}
+
+// ---- sendmmsg batch bookkeeping ----
+
+func isRecvSide(v string) bool {
+	switch v {
+	case "rmsgvec", "riovec", "savec", "bufvec", "cmsgvec":
+		return true
+	}
+	return false
+}
+
+// indexOfVec: `V[E]`, `V[E].F`, `&V[E]` with V an identifier ending in "vec" -> (V, E).
+func indexOfVec(p *apkg, e ast.Expr) (string, string, bool) {
+	for {
+		switch v := e.(type) {
+		case *ast.UnaryExpr:
+			e = v.X
+			continue
+		case *ast.SelectorExpr:
+			e = v.X
+			continue
+		case *ast.ParenExpr:
+			e = v.X
+			continue
+		case *ast.IndexExpr:
+			if id, ok := v.X.(*ast.Ident); ok && strings.HasSuffix(id.Name, "vec") {
+				return id.Name, p.Src(v.Index), true
+			}
+			return "", "", false
+		default:
+			return "", "", false
+		}
+	}
+}
+
+// linkTarget: `&Y[idx]` possibly wrapped in `(*byte)(unsafe.Pointer(...))`.
+func linkTarget(p *apkg, e ast.Expr) (string, string, bool) {
+	for {
+		switch v := e.(type) {
+		case *ast.CallExpr:
+			if len(v.Args) != 1 {
+				return "", "", false
+			}
+			e = v.Args[0]
+		case *ast.ParenExpr:
+			e = v.X
+		case *ast.UnaryExpr:
+			if v.Op.String() != "&" {
+				return "", "", false
+			}
+			ix, ok := v.X.(*ast.IndexExpr)
+			if !ok {
+				return "", "", false
+			}
+			id, ok := ix.X.(*ast.Ident)
+			if !ok || !strings.HasSuffix(id.Name, "vec") {
+				return "", "", false
+			}
+			return id.Name, p.Src(ix.Index), true
+		default:
+			return "", "", false
+		}
+	}
+}
+
+func batchProgram(p *apkg, fd *ast.FuncDecl) ([][2]string, error) {
+	var out [][2]string
+	add := func(k, v string) { out = append(out, [2]string{k, v}) }
+	var mainLoop *ast.ForStmt
+	// 1. set-up loops before the main loop: msgvec[i].Msghdr.{Iov,Name} = &Y[i]
+	for _, st := range fd.Body.List {
+		if ls, ok := st.(*ast.LabeledStmt); ok {
+			st = ls.Stmt
+		}
+		switch v := st.(type) {
+		case *ast.ForStmt:
+			if v.Cond == nil && v.Init == nil {
+				if mainLoop != nil {
+					return nil, fmt.Errorf("more than one main loop")
+				}
+				mainLoop = v
+			}
+		case *ast.RangeStmt:
+			key := p.Src(v.Key)
+			for _, bs := range v.Body.List {
+				as, ok := bs.(*ast.AssignStmt)
+				if !ok || len(as.Lhs) != 1 || len(as.Rhs) != 1 {
+					continue
+				}
+				lv, li, ok := indexOfVec(p, as.Lhs[0])
+				if !ok {
+					continue
+				}
+				if tv, ti, ok := linkTarget(p, as.Rhs[0]); ok {
+					if li != key || ti != key {
+						add("badlink", fmt.Sprintf("%s[%s]->%s[%s] (loop variable %s)", lv, li, tv, ti, key))
+					} else {
+						add("link", lv+"->"+tv)
+					}
+				}
+			}
+		}
+	}
+	if mainLoop == nil {
+		return nil, fmt.Errorf("no main loop")
+	}
+	// 2. the main loop
+	var counter, iter, sendHi, sendVec string
+	counterScope := ""
+	var path []string
+	seenWrite := false
+	_ = seenWrite
+	var walk func(list []ast.Stmt, depth int, iterVar string) error
+	walk = func(list []ast.Stmt, depth int, iterVar string) error {
+		for _, st := range list {
+			if ls, ok := st.(*ast.LabeledStmt); ok {
+				st = ls.Stmt
+			}
+			switch v := st.(type) {
+			case *ast.DeclStmt:
+				src := p.Src(v)
+				if strings.HasPrefix(src, "var ") && strings.HasSuffix(src, " int") && !strings.Contains(src, "(") {
+					name := strings.Fields(src)[1]
+					if name == "ns" || name == "count" {
+						counter = name
+						if depth == 0 {
+							counterScope = "batch"
+						} else {
+							counterScope = "nested"
+						}
+					}
+				}
+			case *ast.AssignStmt:
+				for _, lh := range v.Lhs {
+					if vec, idx, ok := indexOfVec(p, lh); ok && !isRecvSide(vec) {
+						path = append(path, "fill "+idx)
+					}
+				}
+				for _, rh := range v.Rhs {
+					if ce, ok := rh.(*ast.CallExpr); ok && strings.HasSuffix(p.Src(ce.Fun), ".WriteMsgs") {
+						se, ok := ce.Args[0].(*ast.SliceExpr)
+						if !ok || se.High == nil {
+							return fmt.Errorf("WriteMsgs argument %q is not a slice expression", p.Src(ce.Args[0]))
+						}
+						sendVec, sendHi = p.Src(se.X), p.Src(se.High)
+						seenWrite = true
+					}
+					// packetBuf := bufvec[i]
+					if vec, idx, ok := indexOfVec(p, rh); ok && vec == "bufvec" {
+						add("buf", idx)
+					}
+				}
+			case *ast.ExprStmt:
+				if ce, ok := v.X.(*ast.CallExpr); ok {
+					fn := p.Src(ce.Fun)
+					switch {
+					case strings.HasSuffix(fn, ".SetLen"):
+						if vec, idx, ok := indexOfVec(p, ce.Fun.(*ast.SelectorExpr).X); ok && !isRecvSide(vec) {
+							path = append(path, "fill "+idx)
+						}
+					case strings.HasSuffix(fn, "PutAddrPort"):
+						for _, a := range ce.Args {
+							if vec, idx, ok := indexOfVec(p, a); ok && !isRecvSide(vec) {
+								path = append(path, "fill "+idx)
+							}
+						}
+					}
+				}
+			case *ast.IncDecStmt:
+				if name := p.Src(v.X); name == "ns" || name == "count" {
+					path = append(path, "inc "+name)
+				}
+			case *ast.RangeStmt:
+				if strings.HasPrefix(p.Src(v.X), "rmsgvec") {
+					iter = p.Src(v.Key)
+					if err := walk(v.Body.List, depth+1, iter); err != nil {
+						return err
+					}
+				}
+			case *ast.ForStmt:
+				if err := walk(v.Body.List, depth+1, iterVar); err != nil {
+					return err
+				}
+			case *ast.IfStmt:
+				// early exits (continue / goto) carry no fills; other ifs are walked
+				if containsSrc(p, v.Body, "vec[") {
+					if err := walk(v.Body.List, depth+1, iterVar); err != nil {
+						return err
+					}
+				}
+			}
+		}
+		return nil
+	}
+	if err := walk(mainLoop.Body.List, 0, ""); err != nil {
+		return nil, err
+	}
+	if counter == "" || sendVec == "" || len(path) == 0 {
+		return nil, fmt.Errorf("unrecognised batch loop (counter %q, send vector %q, %d keep-path events)", counter, sendVec, len(path))
+	}
+	// only the fills of vectors that belong to the sent batch: the keep path is the run of events ending in the increment
+	add("counter", counter)
+	add("counterScope", counterScope)
+	add("iter", iter)
+	for _, e := range path {
+		k, v, _ := strings.Cut(e, " ")
+		add(k, v) // ("fill", index expression) / ("inc", counter), in source order
+	}
+	add("sendVec", sendVec)
+	add("sendHi", sendHi)
+	return out, nil
 }
